@@ -56,8 +56,9 @@ def _np(x):
 class ModelRunner:
     """Executes operations for ONE model; used identically in the history process and in the fresh interpreter."""
 
-    def __init__(self, spec, shared_circ=None, file_prefix=""):
+    def __init__(self, spec, pool=None, file_prefix=""):
         self.spec = spec
+        self.pool = pool            # template objects shared with another model of the history (None: own objects)
         self.file_prefix = file_prefix
         self.rm = RefModel(spec)
         self.circ = None
@@ -65,7 +66,7 @@ class ModelRunner:
         self.build()
 
     def build(self):
-        self.circ = build_circuit(self.spec, name="net")
+        self.circ = build_circuit(self.spec, name="net", pool=self.pool)
 
     def _outputs(self):
         return {f"v{i}": p for i, p in enumerate(self.rm.state_paths)}
@@ -80,6 +81,9 @@ class ModelRunner:
         except HarnessError:
             raise
         except Exception as e:
+            if os.environ.get("PV_C13_DEVLOG"):
+                with open(os.environ["PV_C13_DEVLOG"], "a") as fh:
+                    fh.write(f"--- cwd={os.getcwd()} files={sorted(os.listdir('.'))[:60]}\n{e}\n")
             return {"ok": False, "err": type(e).__name__, "msg": short_exc(e)}
 
     def _do(self, k, op):
@@ -90,6 +94,8 @@ class ModelRunner:
             return {}
         if k == "update_var":
             cand = sorted(p for p, kd in self.rm.kind.items() if kd in ("const", "state"))
+            if op.get("const_only"):
+                cand = sorted(p for p, kd in self.rm.kind.items() if kd == "const") or cand
             path = cand[op["i"] % len(cand)]
             c.update_var(node_vars={path: float(op["val"])})
             return {}
@@ -233,6 +239,21 @@ def _close(a, b, rtol=1e-12):
 
 _HISTORY_COUNTER = 0
 
+if os.environ.get("PV_C13_DEVLOG"):
+    _orig_run = subprocess.run
+
+    def _logged_run(cmd, *a, **k):
+        r = _orig_run(cmd, *a, **k)
+        if isinstance(cmd, list) and "numpy.f2py" in cmd and r.returncode != 0:
+            with open(os.environ["PV_C13_DEVLOG"] + ".f2py", "a") as fh:
+                fh.write(f"==== {cmd}\n{(r.stdout or '')[-6000:]}\n")
+                try:
+                    fh.write(open(cmd[-1]).read())
+                except Exception as e:
+                    fh.write(str(e))
+        return r
+    subprocess.run = _logged_run
+
 
 class Interp:
     def __init__(self, init):
@@ -247,7 +268,11 @@ class Interp:
         global _HISTORY_COUNTER
         _HISTORY_COUNTER += 1
         prefix = f"h{_HISTORY_COUNTER}_"
-        self.runners = [ModelRunner(s, file_prefix=prefix) for s in self.specs]
+        # "shared": the first two models are built from the very same OperatorTemplate/NodeTemplate/EdgeTemplate objects
+        pool = {} if init.get("shared") else None
+        self.shared = pool is not None
+        self.runners = [ModelRunner(s, file_prefix=prefix, pool=(pool if (pool is not None and i < 2) else None))
+                        for i, s in enumerate(self.specs)]
         self.log = [[] for _ in self.specs]     # per model: (op, result)
         self.order = []                          # (model index, op kind)
         self.kinds = []
@@ -317,7 +342,7 @@ class Interp:
         self.res.nontrivial = nontrivial
         if any(k.startswith("failed_compile@") for k in self.kinds):
             labels.add("op:failed_compile")
-        self.res.labels = sorted(labels) + [f"models:{len(self.specs)}"]
+        self.res.labels = sorted(labels) + [f"models:{len(self.specs)}"] + (["shared_template_objects"] if self.shared else [])
         self.res.info = {"judged_results": judged}
         return self.res
 
@@ -371,7 +396,9 @@ def init_strategy():
         specs = [a, b]
         if draw(st.integers(0, 2)) == 0:
             specs.append(draw(gen.model_spec(cfg)))
-        return {"specs": specs, "variant": mode}
+        # operators and node types of the two models are the same declarations: optionally the same Python objects
+        shared = mode in ("same", "weights", "nodes") and draw(st.booleans())
+        return {"specs": specs, "variant": mode, "shared": shared}
     return init()
 
 
@@ -415,7 +442,7 @@ class SweepArm(Arm):
     budget = {"quick": 64, "thorough": 800}
     min_per_shard = 4
     case_timeout = 900
-    required_labels = ("backend:jax", "backend:torch", "backend:default", "backend:fortran")
+    required_labels = ("backend:jax", "backend:torch", "backend:default", "backend:fortran", "precision_change:fortran")
 
     def strategy(self, ctx):
         @st.composite
@@ -426,7 +453,7 @@ class SweepArm(Arm):
             a = draw(gen.model_spec(cfg))
             be = draw(st.sampled_from(["jax", "jax", "torch", "default", "fortran", "fortran"]))
             # (values reach a compiled Fortran routine as arguments; what a stale routine gets wrong are the equations)
-            mode = draw(st.sampled_from(["weights", "weights", "defaults", "equation"] if be != "fortran" else
+            mode = draw(st.sampled_from(["weights", "weights", "defaults", "equation", "int_spelling"] if be != "fortran" else
                                         ["equation", "equation", "defaults"]))
             if draw(st.booleans()):
                 # dense coupling of one variable pair over all nodes (a weight matrix in the vectorized network)
@@ -449,6 +476,17 @@ class SweepArm(Arm):
                     for v in b["ops"][o]["vars"]:
                         if v[1] in ("const", "state"):
                             v[2] = round(float(v[2]) * 0.5 + 0.3, 4)
+            elif mode == "int_spelling":
+                # the first model declares its parameters with integer literals (k: 2), the second one the same numbers as
+                # floats (k: 2.0) and then sets one of them to a non-integer value: what a number means must not depend
+                # on how an earlier model spelled it
+                for o in sorted(a["ops"]):
+                    for k_, v in enumerate(a["ops"][o]["vars"]):
+                        if v[1] == "const":
+                            v[2] = float(1 + (k_ % 3))
+                b = copy.deepcopy(a)
+                for o in sorted(a["ops"]):
+                    a["ops"][o]["int_decl"] = True
             else:
                 o = sorted(b["ops"])[0]
                 b["ops"][o]["eqs"][0][2] = ["bin", "*", ["num", 0.5], b["ops"][o]["eqs"][0][2]]
@@ -456,9 +494,15 @@ class SweepArm(Arm):
             kind = draw(st.sampled_from(["get_run_func", "get_run_func", "run"])) if be != "fortran" else "get_run_func"
             base = {"op": kind, "vectorize": vec, "in_place": draw(st.booleans()), "clear": draw(st.booleans()),
                     "file": "pv_gen_a", "fname": "pv_f", "i": 0, "val": 0.37, "backend": be}
-            ops = [dict(base, m=0), dict(base, m=1)]
+            # the two translations may ask for different precisions (helper functions, literals and casts of the second must
+            # be those of its own precision)
+            precs = draw(st.sampled_from([("float64", "float64"), ("float64", "float64"), ("float32", "float64"),
+                                          ("float64", "float32")]))
+            ops = [dict(base, m=0, precision=precs[0]), dict(base, m=1, precision=precs[1])]
             if draw(st.booleans()):
-                ops.append(dict(base, m=0))
+                ops.append(dict(base, m=0, precision=precs[0]))
+            if mode == "int_spelling":
+                ops.insert(1, dict(base, op="update_var", m=1, i=draw(st.integers(0, 20)), val=0.37, const_only=True))
             return {"init": {"specs": [a, b], "variant": mode}, "ops": ops}
         return case()
 
@@ -468,6 +512,8 @@ class SweepArm(Arm):
             guarded_step(it, op, limit=180)
         res = it.finish()
         res.labels = list(res.labels) + ["backend:" + case["ops"][0]["backend"], "variant:" + case["init"]["variant"]]
+        if case["ops"][0].get("precision", "float64") != case["ops"][1].get("precision", "float64"):
+            res.labels.append("precision_change:" + case["ops"][0]["backend"])
         return res
 
     def sample(self, case):
